@@ -301,10 +301,13 @@ bool comp_reset_comp_data(zckCtx *zck) {
     if(zck->comp.data) {
         free(zck->comp.data);
         zck->comp.data = NULL;
-        zck->comp.data_size = 0;
-        zck->comp.data_loc = 0;
-        zck->comp.data_idx = NULL;
     }
+    /* Forget the position inside the previous chunk even if its compressed
+     * data has already been consumed */
+    zck->comp.data_size = 0;
+    zck->comp.data_loc = 0;
+    zck->comp.data_idx = NULL;
+    zck->comp.data_eof = false;
     return true;
 }
 
@@ -714,6 +717,10 @@ ssize_t ZCK_PUBLIC_API zck_get_chunk_comp_data(zckChunk *idx, char *dst,
     if(!seek_data(zck, zck_get_chunk_start(idx), SEEK_SET))
         return -1;
 
+    /* Never read past the end of the requested chunk */
+    if(dst_size > idx->comp_length)
+        dst_size = idx->comp_length;
+
     /* Return read chunk */
     return read_data(zck, dst, dst_size);
 }
@@ -765,5 +772,12 @@ ssize_t ZCK_PUBLIC_API zck_get_chunk_data(zckChunk *idx, char *dst,
     if(!seek_data(zck, zck_get_chunk_start(idx), SEEK_SET))
         return -1;
     zck->comp.data_idx = idx;
+    /* Start the chunk checksum afresh: an earlier request may have stopped in
+     * the middle of another chunk */
+    if(!hash_init(zck, &(zck->check_chunk_hash), &(zck->chunk_hash_type)))
+        return -1;
+    /* Never return data from the chunks that follow the requested one */
+    if(dst_size > idx->length)
+        dst_size = idx->length;
     return comp_read(zck, dst, dst_size, 1);
 }
